@@ -20,6 +20,9 @@ type PairCase struct {
 	StopAt   int         `json:"stop_at"`             // callback stops at this index (-1 never)
 	StopErr  bool        `json:"stop_err,omitempty"`  // ... by returning an error instead of false
 	StopKeep bool        `json:"stop_keep,omitempty"` // the keepGoing flag returned together with the error
+	// StopErrKind: which error the callback fails with: 0 an error of the harness, 1 mast.ErrNoMoreDiffs itself,
+	// 2 an error wrapping mast.ErrNoMoreDiffs (e.g. from a second diff cursor driven inside the callback), 3 mast.ErrIterDone
+	StopErrKind int `json:"stop_err_kind,omitempty"`
 }
 
 var pairBaseWeights = core.OpWeights{
